@@ -112,4 +112,186 @@ theorem exists_mget_of_length_pos (m : GoMap K V) (h : m.length > 0) :
   | nil => simp at h
   | cons e r => exact ⟨e.1, e.2, by simp [mget]⟩
 
+/-! ### buckets -/
+
+section bucket
+variable {o : KeyOps K} (L : KeyLaws o)
+include L
+
+theorem keq_left_congr {k k' : K} (h : o.keq k k' = true) (e : K) : o.keq e k = o.keq e k' := by
+  cases h1 : o.keq e k <;> cases h2 : o.keq e k' <;> try rfl
+  · have := L.trans e k' k h2 (L.symm _ _ h); simp_all
+  · have := L.trans e k k' h1 h; simp_all
+
+theorem keq_comm (a b : K) : o.keq a b = o.keq b a := by
+  cases h1 : o.keq a b <;> cases h2 : o.keq b a <;> try rfl
+  · have := L.symm _ _ h2; simp_all
+  · have := L.symm _ _ h1; simp_all
+
+theorem bfind_congr (b : Bucket K V) {k k' : K} (h : o.keq k k' = true) :
+    bfind o b k = bfind o b k' := by
+  induction b with
+  | nil => rfl
+  | cons e r ih => obtain ⟨ke, ve⟩ := e; simp only [bfind, keq_left_congr L h ke, ih]
+
+omit L in
+theorem bfind_none_iff (b : Bucket K V) (k : K) :
+    bfind o b k = none ↔ ∀ e ∈ b, o.keq e.1 k = false := by
+  induction b with
+  | nil => simp [bfind]
+  | cons e r ih =>
+    obtain ⟨ke, ve⟩ := e
+    simp only [bfind, List.mem_cons, forall_eq_or_imp]
+    cases h : o.keq ke k <;> simp [ih]
+
+omit L in
+theorem any_eq_bfind_isSome (b : Bucket K V) (k : K) :
+    b.any (fun e => o.keq e.1 k) = (bfind o b k).isSome := by
+  induction b with
+  | nil => rfl
+  | cons e r ih =>
+    obtain ⟨ke, ve⟩ := e
+    simp only [List.any_cons, bfind, ih]
+    cases h : o.keq ke k <;> simp
+
+omit L in
+theorem bfind_some_mem (b : Bucket K V) (k : K) (v : V) (h : bfind o b k = some v) :
+    ∃ e ∈ b, o.keq e.1 k = true := by
+  induction b with
+  | nil => simp [bfind] at h
+  | cons e r ih =>
+    obtain ⟨ke, ve⟩ := e
+    simp only [bfind] at h
+    cases hk : o.keq ke k
+    · simp only [hk] at h
+      obtain ⟨e', he', hq⟩ := ih (by simpa using h)
+      exact ⟨e', List.mem_cons_of_mem _ he', hq⟩
+    · exact ⟨(ke, ve), List.mem_cons_self, hk⟩
+
+/-- the replace loop of HashSet, seen from a key equal to the one being set -/
+theorem bfind_replace_eq (b : Bucket K V) (k k' : K) (v : V) (h : o.keq k k' = true) :
+    bfind o (b.map (fun e => if o.keq e.1 k then (k, v) else e)) k' =
+      if b.any (fun e => o.keq e.1 k) then some v else none := by
+  induction b with
+  | nil => rfl
+  | cons e r ih =>
+    obtain ⟨ke, ve⟩ := e
+    simp only [List.map_cons, List.any_cons]
+    by_cases hk : o.keq ke k = true
+    · simp [bfind, h, hk]
+    · have hk' : o.keq ke k = false := by simpa using hk
+      have : o.keq ke k' = false := by rw [← keq_left_congr L h ke]; exact hk'
+      simp only [hk', Bool.false_eq_true, if_false, bfind, this, ih, Bool.false_or]
+
+/-- … and from any other key -/
+theorem bfind_replace_ne (b : Bucket K V) (k k' : K) (v : V) (h : o.keq k k' = false) :
+    bfind o (b.map (fun e => if o.keq e.1 k then (k, v) else e)) k' = bfind o b k' := by
+  induction b with
+  | nil => rfl
+  | cons e r ih =>
+    obtain ⟨ke, ve⟩ := e
+    simp only [List.map_cons]
+    by_cases hk : o.keq ke k = true
+    · have : o.keq ke k' = false := by
+        cases h2 : o.keq ke k'
+        · rfl
+        · have := L.trans k ke k' (L.symm _ _ hk) h2; simp_all
+      simp [bfind, h, this, ih, hk]
+    · have hk' : o.keq ke k = false := by simpa using hk
+      simp [bfind, ih, hk']
+
+omit L in
+theorem bfind_append (b : Bucket K V) (k k' : K) (v : V) :
+    bfind o (b ++ [(k, v)]) k' =
+      match bfind o b k' with
+      | some x => some x
+      | none => if o.keq k k' then some v else none := by
+  induction b with
+  | nil => simp [bfind]
+  | cons e r ih =>
+    obtain ⟨ke, ve⟩ := e
+    simp only [List.cons_append, bfind]
+    cases hk : o.keq ke k' <;> simp [ih]
+
+omit L in
+theorem bremove_none_iff (b : Bucket K V) (k : K) :
+    bremove o b k = none ↔ bfind o b k = none := by
+  induction b with
+  | nil => simp [bremove, bfind]
+  | cons e r ih =>
+    obtain ⟨ke, ve⟩ := e
+    simp only [bremove, bfind]
+    cases hk : o.keq ke k <;> simp [ih]
+
+omit L in
+theorem bremove_length (b b' : Bucket K V) (k : K) (h : bremove o b k = some b') :
+    b'.length + 1 = b.length := by
+  induction b generalizing b' with
+  | nil => simp [bremove] at h
+  | cons e r ih =>
+    obtain ⟨ke, ve⟩ := e
+    simp only [bremove] at h
+    cases hk : o.keq ke k
+    · simp only [hk, Bool.false_eq_true, if_false, Option.map_eq_some_iff] at h
+      obtain ⟨r', hr', rfl⟩ := h
+      simp [ih r' hr']
+    · simp only [hk, if_true, Option.some.injEq] at h
+      subst h; rfl
+
+omit L in
+theorem bremove_sublist (b b' : Bucket K V) (k : K) (h : bremove o b k = some b') :
+    b'.Sublist b := by
+  induction b generalizing b' with
+  | nil => simp [bremove] at h
+  | cons e r ih =>
+    obtain ⟨ke, ve⟩ := e
+    simp only [bremove] at h
+    cases hk : o.keq ke k
+    · simp only [hk, Bool.false_eq_true, if_false, Option.map_eq_some_iff] at h
+      obtain ⟨r', hr', rfl⟩ := h
+      exact List.Sublist.cons_cons _ (ih r' hr')
+    · simp only [hk, if_true, Option.some.injEq] at h
+      subst h; exact List.sublist_cons_self _ _
+
+/-- after the removal: the deleted key (in any spelling) is gone, every other key is untouched.
+Needs the bucket's keys to be pairwise different. -/
+theorem bfind_bremove (b b' : Bucket K V) (k k' : K) (h : bremove o b k = some b')
+    (pw : b.Pairwise (fun e f => o.keq e.1 f.1 = false)) :
+    bfind o b' k' = if o.keq k k' then none else bfind o b k' := by
+  induction b generalizing b' with
+  | nil => simp [bremove] at h
+  | cons e r ih =>
+    obtain ⟨ke, ve⟩ := e
+    simp only [bremove] at h
+    rw [List.pairwise_cons] at pw
+    cases hk : o.keq ke k
+    · simp only [hk, Bool.false_eq_true, if_false, Option.map_eq_some_iff] at h
+      obtain ⟨r', hr', rfl⟩ := h
+      have ih' := ih r' hr' pw.2
+      simp only [bfind, ih']
+      cases hkk : o.keq k k'
+      · simp
+      · have : o.keq ke k' = false := by rw [← keq_left_congr L hkk ke]; exact hk
+        simp [this]
+    · simp only [hk, if_true, Option.some.injEq] at h
+      subst h
+      cases hkk : o.keq k k'
+      · have : o.keq ke k' = false := by
+          cases h2 : o.keq ke k'
+          · rfl
+          · have := L.trans k ke k' (L.symm _ _ hk) h2; simp_all
+        simp [bfind, this]
+      · simp only [if_true]
+        rw [bfind_none_iff]
+        intro f hf
+        have h1 := pw.1 f hf
+        cases h2 : o.keq f.1 k'
+        · rfl
+        · -- ke ~ k ~ k' ~ f.1 contradicts pairwise
+          have h3 : o.keq ke k' = true := L.trans ke k k' hk hkk
+          have h4 : o.keq ke f.1 = true := L.trans ke k' f.1 h3 (L.symm _ _ h2)
+          simp_all
+
+end bucket
+
 end ZygoVerif.Hash
